@@ -37,6 +37,8 @@ Statement level
   * `a, b = (x, y)` -> `a = x`; `b = y` (plain distinct names not read on the right)
   * `if (x := E): S` -> `x = E; if x: S`; a walrus in a later conjunct of an else-less test nests the test
   * `x = A if c else B` -> `if c: x = A else: x = B`, likewise `return A if c else B` (whole-value conditionals)
+  * a read whose only reaching definition assigns None / True / False is replaced by the constant (and
+    conditional expressions on constants are folded)
   * `x = <constant>` that no read can observe (reaching definitions) is removed
   * a flag set to constants at the end of both arms of an `if` and read only by the next statement: that statement
     moves into the arms with the constant in place of the flag
@@ -280,6 +282,8 @@ class ExprCanon(ast.NodeTransformer):
 
     def visit_IfExp(self, node):
         self.generic_visit(node)
+        if isinstance(node.test, ast.Constant) and (node.test.value is None or isinstance(node.test.value, bool)):
+            return node.body if node.test.value else node.orelse
         # X[k] if k in X else d  ->  X.get(k, d)
         t = node.test
         if isinstance(t, ast.Compare) and len(t.ops) == 1 and isinstance(t.ops[0], (ast.In, ast.NotIn)):
@@ -840,6 +844,33 @@ def _strip_tail_continue(stmts):
     return stmts
 
 
+def _propagate_constants(fnode):
+    """a read whose only reaching definition assigns None / True / False is that constant"""
+    from .refnorm import reaching_definitions
+
+    reach = reaching_definitions(fnode)
+    if not reach:
+        return False
+    pm = {}
+    for n in ast.walk(fnode):
+        for c in ast.iter_child_nodes(n):
+            pm[id(c)] = n
+    captured = set()
+    for n in ast.walk(fnode):
+        if isinstance(n, (ast.Lambda, ast.FunctionDef, ast.AsyncFunctionDef)) and n is not fnode:
+            captured |= {x.id for x in ast.walk(n) if isinstance(x, ast.Name)}
+    changed = False
+    for n in list(ast.walk(fnode)):
+        if isinstance(n, ast.Name) and isinstance(n.ctx, ast.Load) and n.id not in captured and len(reach.get(id(n), ())) == 1:
+            d = reach[id(n)][0]
+            asg = pm.get(id(d))
+            if isinstance(d, ast.Name) and isinstance(asg, ast.Assign) and len(asg.targets) == 1 and asg.targets[0] is d and isinstance(asg.value, ast.Constant) and (asg.value.value is None or isinstance(asg.value.value, bool)):
+                par = pm.get(id(n))
+                if par is not None and not isinstance(par, (ast.AugAssign,)) and _replace_expr(par, n, _loc(ast.Constant(value=asg.value.value), n)):
+                    changed = True
+    return changed
+
+
 def _drop_dead_constant_stores(fnode):
     """`x = <constant>` whose value no read can see (every path overwrites x first): the statement is removed.
     Decided by reaching definitions (sa/refnorm.webs): the store's def-use web contains no read."""
@@ -1180,6 +1211,8 @@ def canon_stmt(s):
             s.body = canon_block(_strip_tail_returns(s.body))
         if _inline_single_use(s):
             s.body = canon_block(s.body)
+        if _propagate_constants(s):
+            s.body = canon_block([ExprCanon().visit(x) for x in s.body])
         if _drop_dead_constant_stores(s):
             s.body = canon_block(s.body)
     elif isinstance(s, ast.ClassDef):
